@@ -114,6 +114,11 @@ def eval_pe(pe, data, switch_of):
 
 HISTORIES = ([[a] for a in KERNELS] + [[a, b] for a in KERNELS for b in KERNELS if a != b]
              + [[a, b, c] for a in KERNELS for b in KERNELS for c in KERNELS if a != b and b != c and a != c])
+# longer histories over sub-pools chosen for conflicting routings / repeated operands (thorough tier)
+POOL4 = ["a-b", "b-a", "(a*b)+c", "c-(a*b)", "a*a", "(b-c)*(b-c)"]
+POOL5 = ["a+b", "b-a", "c-(a*b)", "(a*b)-(a*b)", "(a+b)*c"]
+HISTORIES = HISTORIES + [[a, b, c, d] for a in POOL4 for b in POOL4 for c in POOL4 for d in POOL4 if len({a, b, c, d}) == 4]
+HISTORIES = HISTORIES + [[a, b, c, d, e] for a in POOL5 for b in POOL5 for c in POOL5 for d in POOL5 for e in POOL5 if len({a, b, c, d, e}) == 5]
 
 
 @contract
